@@ -223,35 +223,80 @@ Definition obs_state (r : replica afacts) : list N * list (list N) * list N * li
      nsort (closure (sW s) (sheads s)))
   end.
 
-(** extended ops: the model's [op]s plus the two read-only probes of the harness *)
-Inductive xop := XOp (o : op) | XProbe (i m : N) | XSess.
+(** extended ops: the model's [op]s plus the read-only probes of the harness, an injected storage fault
+    (the next [Write::commit] fails with IoError) and [ClientState::new_graph] *)
+Inductive xop := XOp (o : op) | XProbe (i m : N) | XSess | XFaultCommit | XNewGraph (fail : option nat) (cs : list pubcmd).
 
-Definition xstep (r : replica afacts) (x : xop) : replica afacts * obs :=
+(** the store after an operation whose [commit_heads] failed at the I/O level: everything appended stays
+    (unreachable), the committed head set, fact cache and stamp are the old ones *)
+Definition unfault (so sn : store afacts) : store afacts :=
+  {| sW := sW sn; sheads := sheads so; scache := scache so; sstamp := sstamp so; sfree := sfree sn;
+     sncommit := sncommit so; sclash := sclash sn |}.
+Definition did_commit (o : op) (x : res) : bool :=
+  match o, x with Commit _, ROkB true => true | Action _, ROk => true | _, _ => false end.
+
+Definition mk_obs (r : replica afacts) (res : list N) (l : list sev) : obs :=
+  let '(h, f, hh, c) := obs_state r in
+  {| o_res := res; o_sink := map enc_sev l; o_heads := h; o_facts := f; o_hello := hh; o_committed := c |}.
+
+(** [ClientState::new_graph] with the audit init action publishing [cs] *)
+Definition new_graph (r : replica afacts) (fail : option nat) (cs : list pubcmd) : replica afacts * list N * list sev :=
+  let p0 : persp afacts := {| pp := PNone; pcmds := []; pbase := []; pmc := 0 |} in
+  match publish afacts (audit_eval progs) p0 cs 0 fail [SBegin] with
+  | inr (e, log) => (r, enc_res (RErr (EPolicy e)), log ++ [SRollback])
+  | inl (p', log) =>
+    let l := log ++ [SCommit] in
+    match rev (pcmds p'), pcmds p' with
+    | w0 :: _, wl :: _ =>
+      if wid w0 =? gid then
+        match rstore r with
+        | Some _ => (r, [3; 3; 4], l)                        (* StorageExists *)
+        | None =>
+          ({| rstore := Some {| sW := pcmds p'; sheads := [wid wl]; scache := wfacts wl;
+                                sstamp := if libc then 2 else 0; sfree := 3; sncommit := 1; sclash := false |};
+              rtxs := rtxs r |}, enc_res (ROkN (wid w0)), l)
+        end
+      else (r, enc_res (ROkN (wid w0)), l)                   (* another graph: not the one this replica models *)
+    | _, _ => (r, enc_res (RErr (EStorage SEmptyPerspective)), l)
+    end
+  end.
+
+Definition xstep (rf : replica afacts * bool) (x : xop) : (replica afacts * bool) * obs :=
+  let '(r, flt) := rf in
   match x with
   | XOp o =>
     let '(r', l, res) := a_step r o in
-    let '(h, f, hh, c) := obs_state r' in
-    (r', {| o_res := enc_res res; o_sink := map enc_sev l; o_heads := h; o_facts := f; o_hello := hh; o_committed := c |})
+    if flt && did_commit o res then
+      let r'' := {| rstore := match rstore r, rstore r' with
+                              | Some so, Some sn => Some (unfault so sn)
+                              | _, x' => x'
+                              end; rtxs := rtxs r' |} in
+      ((r'', false), mk_obs r'' [3; 3; 3] (match o with Action _ => removelast l | _ => l end))
+    else ((r', flt), mk_obs r' (enc_res res) l)
+  | XFaultCommit => ((r, true), mk_obs r [0] [])
+  | XNewGraph fail cs =>
+    let '(r', res, l) := new_graph r fail cs in ((r', flt), mk_obs r' res l)
   | XProbe i m =>
     let '(h, f, hh, c) := obs_state r in
-    (r, {| o_res := enc_res (ROkB (should_sync afacts merge_id_ref (rstore r) (i, m)));
+    ((r, flt), {| o_res := enc_res (ROkB (should_sync afacts merge_id_ref (rstore r) (i, m)));
            o_sink := []; o_heads := h; o_facts := f; o_hello := hh; o_committed := c |})
   | XSess =>
     let '(h, f, hh, c) := obs_state r in
     match rstore r with
-    | None => (r, {| o_res := enc_res (RErr (EStorage SNoSuchStorage)); o_sink := []; o_heads := h; o_facts := f;
+    | None => ((r, flt), {| o_res := enc_res (RErr (EStorage SNoSuchStorage)); o_sink := []; o_heads := h; o_facts := f;
                      o_hello := hh; o_committed := c |})
-    | Some s => (r, {| o_res := enc_res ROk;
+    | Some s => ((r, flt), {| o_res := enc_res ROk;
                        o_sink := map enc_sev (SBegin :: consumes (dump_effs (scache s)) ++ [SCommit]);
                        o_heads := h; o_facts := f; o_hello := hh; o_committed := c |})
     end
   end.
 
-Fixpoint xrun (r : replica afacts) (xs : list xop) : list obs :=
+Fixpoint xrun_from (rf : replica afacts * bool) (xs : list xop) : list obs :=
   match xs with
   | [] => []
-  | x :: rest => let '(r', o) := xstep r x in o :: xrun r' rest
+  | x :: rest => let '(rf', o) := xstep rf x in o :: xrun_from rf' rest
   end.
+Definition xrun (r : replica afacts) (xs : list xop) : list obs := xrun_from (r, false) xs.
 End Run.
 
 Definition lN_eqb' (a b : list N) : bool :=
